@@ -6,18 +6,6 @@ use vharness::qast::*;
 use vharness::sqlast::*;
 use vharness::*;
 
-fn parse_rows(reply: &str) -> Result<(bool, Vec<String>), String> {
-    match Sx::parse(reply) {
-        Some(Sx::List(v)) if v.len() == 3 && v[0].as_atom() == Some("rows") => {
-            let det = v[1].as_atom() == Some("1");
-            let rows = v[2].as_list().unwrap_or(&[]).iter().map(|r| r.to_string()).collect();
-            Ok((det, rows))
-        }
-        Some(Sx::List(v)) if v.first().and_then(|x| x.as_atom()) == Some("err") => Err(reply.to_string()),
-        _ => Err(format!("unparsable model reply: {}", reply)),
-    }
-}
-
 /// Narrow classes of recorded engine defects reachable from C01's generator. Each is a
 /// predicate over the failing case (query shape + data + how the engine failed).
 fn classify(q: &Query, db: &DbDef, out: &Out) -> Option<&'static str> {
@@ -92,7 +80,7 @@ fn run_case(db_def: &DbDef, q: &Query, model: &mut model::Model, rep: &mut Repor
     db_def.load(&mut db);
     let out = db.query(&sql);
     let reply = model.ask(&req);
-    let m = parse_rows(&reply);
+    let m = parse_ref(&reply);
     let mut feats = vec![];
     q.features(&mut feats);
     for f in &feats {
@@ -104,23 +92,18 @@ fn run_case(db_def: &DbDef, q: &Query, model: &mut model::Model, rep: &mut Repor
             rep.case(&case_id, true);
             rep.fail(FailKind::Oracle, None, &format!("engine panicked: {}", p), &replay());
         }
-        (Out::Rows(rows), Ok((det, mrows))) => {
+        (Out::Rows(rows), Ok(mr)) => {
             let nontrivial = !rows.is_empty() && feats.len() >= 2;
             rep.case(&case_id, nontrivial);
             rep.count(if rows.is_empty() { "result_empty" } else { "result_nonempty" });
-            let eng_seq: Vec<String> = rows.iter().map(|r| canon::row(r)).collect();
-            let mut eng_bag = eng_seq.clone();
-            eng_bag.sort();
-            let mut m_bag = mrows.clone();
-            m_bag.sort();
             rep.traces_validated += 1;
-            if eng_bag != m_bag {
-                rep.fail(FailKind::Oracle, classify(q, db_def, &out), "result multiset differs from the reference semantics", &replay());
-            } else if *det {
-                rep.count("sequence_compared");
-                if &eng_seq != mrows {
-                    rep.fail(FailKind::Oracle, None, "row sequence differs from the reference although ORDER BY determines it", &replay());
-                }
+            let (order_by, limited) = match q {
+                Query::Core(c) => (c.order_by.clone(), c.limit.is_some() || c.offset > 0),
+                _ => (vec![], false),
+            };
+            match compare_with_ref(rows, mr, &order_by, limited) {
+                Ok(kind) => rep.count(kind),
+                Err(what) => rep.fail(FailKind::Oracle, classify(q, db_def, &out), &what, &replay()),
             }
         }
         (Out::Err { class, .. }, Err(_)) => {
@@ -222,7 +205,7 @@ fn main() {
         let mut r = rng.fork();
         let max_rows = if args.quick() { 8 } else { 20 };
         let db_def = gen_db(&mut r, 3, max_rows);
-        let g = QGen { db: &db_def, subqueries: true };
+        let g = QGen { db: &db_def, subqueries: true, force_from: None };
         let q = g.gen_query(&mut r);
         if i < 5 {
             rep.sample(serde_json::json!({"sql": q.sql(&db_def), "tables": db_def.tables.iter().map(|t| t.rows.len()).collect::<Vec<_>>()}));
